@@ -174,7 +174,7 @@ func (b *builder) variant(base gen.MsgSpec) (gen.MsgSpec, string) {
 					first = v[:c]
 				}
 				if bi := strings.Index(first, ";branch"); bi >= 0 && !strings.Contains(first, "\"") {
-					ins := b.r.Pick([]string{";x=\"a,b\"", ";y=\"p;q\"", ";rport", ";ttl=1", ";z=\"\\\"\"", ";received=10.0.0.1", ";maddr=a.b-c_d", ";w=0123456789abcdef", ";e=\"\"", ";e=\"\";f=1", ";g=\"\\\\\""})
+					ins := b.r.Pick([]string{";x=\"a,b\"", ";y=\"p;q\"", ";rport", ";ttl=1", ";z=\"\\\"\"", ";received=10.0.0.1", ";maddr=a.b-c_d", ";w=0123456789abcdef", ";e=\"\"", ";e=\"\";f=1", ";g=\"\\\\\"", ";x=a`b", ";k=v=w", ";pad=YWI=", ";=v", ";a b=c"})
 					m.Hdrs[i].Val = v[:bi] + ins + v[bi:]
 					what = append(what, "via-params")
 				}
